@@ -911,3 +911,6 @@ def _run_timed(ctx):
     out.nontrivial = nontrivial and compared > 0
     out.label(_size_label(nobs))
     out.info = {"observations": nobs, "intervals": m.M, "compared_states": compared}
+
+
+RULE = RULE + " " + 'Later additions: second use - two further periods of equal length with ONE query per period, compared with a fresh statistic.'
